@@ -96,6 +96,7 @@ pub mod p {
             Ok(NoHook(v))
         }
     }
+    impl parity_scale_codec::DecodeWithMemTracking for NoHook {}
 
     // R13.1: declared maximum below the real one
     pub struct MelLow(pub u32);
